@@ -542,6 +542,55 @@ impl Sim for SimB {
             }
         }
 
+        // C14: the market side of the feed as a recorded dataset served by the library's in-memory
+        // back-test source: items and disconnect notices come out as recorded, the leading and trailing
+        // notices included (a dataset may begin or end while a venue is down)
+        if self.prop == PropB::C14 && violation.is_none() {
+            use barter::backtest::market_data::{BacktestMarketData, MarketDataInMemory};
+            use futures::StreamExt;
+            let market: Vec<barter_data::streams::consumer::MarketStreamEvent<InstrumentIndex, barter_data::event::DataKind>> = sc
+                .steps
+                .iter()
+                .filter(|st| w.ev_valid(sc, &st.ev))
+                .filter_map(|st| match w.to_event(sc, &st.ev) {
+                    barter::EngineEvent::Market(m) => Some(m),
+                    _ => None,
+                })
+                .collect();
+            if market.iter().any(|m| matches!(m, barter_data::streams::consumer::MarketStreamEvent::Item(_))) {
+                let source = MarketDataInMemory::new(std::sync::Arc::new(market.clone()));
+                let served: Vec<_> = futures::executor::block_on(async {
+                    match source.stream().await {
+                        Ok(s) => s.collect::<Vec<_>>().await,
+                        Err(_) => Vec::new(),
+                    }
+                });
+                if served != market {
+                    let k = served.iter().zip(market.iter()).position(|(a, b)| a != b).unwrap_or(served.len().min(market.len()));
+                    violation = report(
+                        ctx,
+                        &mut stats,
+                        pid,
+                        "K4_feed_through_in_memory_source",
+                        k,
+                        format!(
+                            "the in-memory market data source serves {} of the {} recorded market events; first difference at position {k}: served {:?}, recorded {:?}",
+                            served.len(),
+                            market.len(),
+                            served.get(k),
+                            market.get(k)
+                        ),
+                        None,
+                    );
+                }
+                if matches!(market.first(), Some(barter_data::streams::consumer::MarketStreamEvent::Reconnecting(_))) || matches!(market.last(), Some(barter_data::streams::consumer::MarketStreamEvent::Reconnecting(_))) {
+                    stats.probe("dataset_begins_or_ends_with_disconnect_notice");
+                }
+            }
+        }
+        // what the user-defined global data must have been updated with so far (market items,
+        // account items), whatever the trading state
+        let mut n_global = crate::world::CountGlobal::default();
         'run: for (step, st) in sc.steps.iter().enumerate() {
             if !w.ev_valid(sc, &st.ev) {
                 continue;
@@ -571,6 +620,18 @@ impl Sim for SimB {
                 if let Some(restored) = serde_json::to_string(&engine.state.trading).ok().and_then(|text| serde_json::from_str(&text).ok()) {
                     engine.state.trading = restored;
                 }
+                let written = engine.state.instruments.clone();
+                if let Some(restored) = serde_json::to_string(&engine.state.instruments).ok().and_then(|text| serde_json::from_str(&text).ok()) {
+                    engine.state.instruments = restored;
+                }
+                if engine.state.instruments != written {
+                    let which = written
+                        .instruments(&barter::engine::state::instrument::filter::InstrumentFilter::None)
+                        .zip(engine.state.instruments.instruments(&barter::engine::state::instrument::filter::InstrumentFilter::None))
+                        .find(|(a, b)| a != b)
+                        .map(|(a, b)| format!("written {:?} / {:?} / {:?}, read back {:?} / {:?} / {:?}", a.position, a.orders, a.data, b.position, b.orders, b.data));
+                    fail!('run, "S0_restored_state_differs", step, None, "instrument state read back from its own JSON differs from what was written: {}", which.unwrap_or_default());
+                }
             }
             let before = engine.state.clone();
             let recv_before: Vec<usize> = (0..w.n_ex).map(|e| w.received_len(e)).collect();
@@ -596,6 +657,8 @@ impl Sim for SimB {
                 _ => {}
             }
 
+            let is_market_item = matches!(&event, barter::EngineEvent::Market(barter_data::streams::consumer::MarketStreamEvent::Item(_)));
+            let is_account_item = matches!(&event, barter::EngineEvent::Account(barter::execution::AccountStreamEvent::Item(_)));
             let audit = engine.process(event);
             let d = decode(&audit);
             let after = &engine.state;
@@ -616,6 +679,15 @@ impl Sim for SimB {
             });
             if !d.is_process {
                 fail!('run, "A0_audit_kind", step, None, "process returned a non-Process audit");
+            }
+            if is_market_item {
+                n_global.market += 1;
+            }
+            if is_account_item {
+                n_global.account += 1;
+            }
+            if after.global != n_global {
+                fail!('run, "S5_state_not_updated_while_disabled", step, None, "after {:?} (trading {:?}) the global data has seen {:?}; the engine was fed {:?}", st.ev, after.trading, after.global, n_global);
             }
 
             let enabled_after = after.trading == TradingState::Enabled;
@@ -1288,6 +1360,7 @@ impl Sim for SimB {
                 "account_link_healed",
                 "several_exchanges_unhealthy",
                 "notices_produced_by_reconnect_combinators",
+                "dataset_begins_or_ends_with_disconnect_notice",
             ],
             PropB::C15 => vec![
                 "priced_market_event_with_open_position",
